@@ -252,7 +252,13 @@ def get_input_data(world: World, sim: SimRunner) -> InputData:
             attrs_old,
         ),
         input_data,
-        sim.persistent_inputs,
+        # Merge a copy (of the three dict levels that mosaik controls):
+        # the dicts become part of input_data, and values added to them
+        # below must not end up in the memory of persistent inputs.
+        {
+            eid: {attr: dict(vals) for attr, vals in attrs.items()}
+            for eid, attrs in sim.persistent_inputs.items()
+        },
     )
     # Merge in pushed inputs from the timed input buffer
     input_data = sim.timed_input_buffer.get_input(input_data, sim.current_step.time)
